@@ -116,6 +116,12 @@ func (p *psTopic) WatchMessages(ctx context.Context) (<-chan *iface.EventPubSubM
 	ch := make(chan *iface.EventPubSubMessage, 128)
 	go func() {
 		defer close(ch)
+
+		// the subscription is not bound to ctx: unless it is closed the node
+		// stays on the topic after the watcher has gone, and its peers never
+		// see it leave (or come back, when the store is opened again)
+		defer sub.Close()
+
 		for {
 			msg, err := sub.Next(ctx)
 			if err != nil {
